@@ -16,7 +16,7 @@ import (
 func init() {
 	vfRegister(&vfProp{
 		id:       "C15",
-		classes:  []string{"os", "os-alloc", "rs", "rs-alloc", "rs-park", "rs-park", "inmem"},
+		classes:  []string{"os", "os-alloc", "rs", "rs-alloc", "rs-park", "rs-park", "inmem", "big"},
 		gen:      c15Gen,
 		exec:     c15Exec,
 		maxSteps: 60000,
@@ -43,6 +43,49 @@ func c15Gen(class string, seed uint64, tier string) *vfScenario {
 		sc.Cfg["alloc"] = int64(rng.IntN(2))
 	}
 	sc.Cfg["hopt"] = 1
+	if class == "big" {
+		// packets above 32 KiB: servers with a raised maximum payload, a client packet size to match, a file of 64 KiB and
+		// more; one READ or WRITE is still one packet and must still be one atomic step, wherever inside it a small
+		// write of somebody else lands
+		sc.Cfg["kind"] = int64(rng.IntN(2))
+		if sc.Cfg["kind"] == 1 {
+			sc.Cfg["parkdata"] = 1
+		}
+		sc.Cfg["alloc"] = int64(rng.IntN(2))
+		size := 66000 + rng.IntN(4000)
+		P := 33000 + rng.IntN(32000)
+		sc.Cfg["size0"], sc.Cfg["P"], sc.Cfg["M"] = int64(size), int64(P), 4
+		sc.Cfg["maxtx"] = int64(P + rng.IntN(3)*1000)
+		sc.Cfg["nofragc"] = 1
+		sc.Cfg["ssites"] = int64(1 + rng.IntN(3))
+		sc.Cfg["csites"] = int64(rng.IntN(4))
+		ntasks := 2 + rng.IntN(2)
+		fill := 1
+		base := rng.IntN(4)
+		marks := []int{base + 32768, base + 16384, base + 32768, base + 8192*(1+rng.IntN(7))} // where small writes land
+		for t := 0; t < ntasks; t++ {
+			for i, n := 0, 1+rng.IntN(3); i < n; i++ {
+				h := rng.IntN(2)
+				switch x := rng.IntN(10); {
+				case x < 4:
+					ln := 32769 + rng.IntN(P-32768)
+					sc.Ops = append(sc.Ops, vfOp{K: "readat", T: t, H: h, Off: int64(base), N: ln})
+				case x < 8:
+					m := marks[rng.IntN(len(marks))]
+					off := m - 1 - rng.IntN(3)
+					sc.Ops = append(sc.Ops, vfOp{K: "writeat", T: t, H: h, Off: int64(off), N: 2 + rng.IntN(6), B: int64(fill)})
+					fill++
+				case x < 9:
+					ln := 32769 + rng.IntN(P-32768)
+					sc.Ops = append(sc.Ops, vfOp{K: "writeat", T: t, H: h, Off: int64(base), N: ln, B: int64(fill)})
+					fill++
+				default:
+					sc.Ops = append(sc.Ops, vfOp{K: "fstat", T: t, H: h})
+				}
+			}
+		}
+		return sc
+	}
 	size := 8 + rng.IntN(57)
 	P := []int{4, 8, 16, 64, 100}[rng.IntN(5)]
 	sc.Cfg["size0"], sc.Cfg["P"], sc.Cfg["M"] = int64(size), int64(P), 4
@@ -78,6 +121,13 @@ func c15Gen(class string, seed uint64, tier string) *vfScenario {
 			default:
 				sc.Ops = append(sc.Ops, vfOp{K: "stat", T: t, P: "f"})
 			}
+		}
+	}
+	if rng.IntN(4) == 0 {
+		// somebody else lists the directory meanwhile and gives up (its context is cancelled at a moment the scheduler
+		// picks); not part of the history, but its late replies must not reach anybody else
+		for i, n := 0, 1+rng.IntN(2); i < n; i++ {
+			sc.Ops = append(sc.Ops, vfOp{K: "readdirctx", T: 90})
 		}
 	}
 	return sc
@@ -166,6 +216,12 @@ func c15Exec(r *vfRun) {
 		if op.K == "stat" {
 			op.P = v.name
 		}
+		if op.K == "readdirctx" {
+			op.P = "/"
+			if v.kind == 0 {
+				op.P = "."
+			}
+		}
 		if _, seen := byTask[op.T]; !seen {
 			tids = append(tids, op.T)
 		}
@@ -188,6 +244,7 @@ func c15Exec(r *vfRun) {
 		}
 		return true
 	}
+	sim.addSource(env.cancelEvents)
 	sim.run(allDone)
 	if sim.failed() {
 		return
@@ -206,6 +263,9 @@ func c15Exec(r *vfRun) {
 	for ci, t := range tids {
 		for i, res := range results[t] {
 			op := res.Op
+			if op.K == "readdirctx" {
+				continue // cancelled or not: no part of the history
+			}
 			if res.Err != nil {
 				r.fail("C15/operation-failed", op.K, "task %d op %d %+v failed: %v", t, i, op, res.Err)
 				return
